@@ -144,11 +144,14 @@ func Rec(kind string, pattern int) ref.SFRecord {
 		r.FrameLen, r.Stripped = 0x600+uint32(pattern), 4
 		r.HeaderLen = len(r.Frame.Bytes())
 		return r
-	case "rt4", "rt6":
+	case "rt4", "rt6", "rt0":
 		r.Kind, r.Tag = "rt", 1002
 		n := 4
 		if kind == "rt6" {
 			n = 16
+		}
+		if kind == "rt0" { // next hop of unknown type: no address octets, the record is 12 octets long
+			n = 0
 		}
 		r.NextHop = make([]byte, n)
 		for i := range r.NextHop {
